@@ -144,6 +144,30 @@ impl<'a> G<'a> {
     }
 }
 
+/// A book with tens of thousands of resting orders (one bulk request), saved by Python, loaded by Rust (the executor does
+/// that after every save) and by Python, then driven on: the snapshot is 4 .. 9 MiB long.
+fn big_snapshot_script(r: &mut SimRng) -> Vec<PyCall> {
+    let tick = r.range(1, 10) as u32;
+    let centre = r.range(100, 100_000) as u32;
+    let n = r.range(22_000, 34_000);
+    let pretty = r.chance(0.5);
+    let mut calls = vec![PyCall { k: "new_book".into(), o: "b".into(), m: String::new(), a: vec![json!(5), json!(tick), json!(true)] }];
+    calls.push(PyCall { k: "bulk".into(), o: "b".into(), m: "bulk_place".into(), a: vec![json!(n), json!(tick), json!(centre)] });
+    calls.push(call("b", "get_trades", vec![]));
+    calls.push(call("b", "save_json_snapshot", vec![json!("@snap_big.json"), json!(pretty)]));
+    // Rust -> Python: the mirror writes its own snapshot of the big book, Python loads it into a second object
+    calls.push(PyCall { k: "load_book".into(), o: "c".into(), m: "b".into(), a: vec![json!("@snap_big_rs.json"), json!(!pretty)] });
+    // a few operations on both objects
+    for o in ["b", "c"] {
+        calls.push(call(o, "set_time", vec![json!(9)]));
+        calls.push(call(o, "place_order", vec![json!(true), json!(500), json!(3), Value::Null]));
+        calls.push(call(o, "place_order", vec![json!(false), json!(700), json!(4), json!((centre - 3) * tick)]));
+        calls.push(call(o, "cancel_order", vec![json!(n / 2)]));
+        calls.push(call(o, "get_trades", vec![]));
+    }
+    calls
+}
+
 fn book_script(r: &mut SimRng) -> Vec<PyCall> {
     let tick = r.range(1, 10) as u32;
     let centre = r.range(20, 100_000) as u32;
@@ -607,6 +631,8 @@ pub fn generate(prop: &str, seed: u64) -> W5Scn {
     let mut r = SimRng::new(seed ^ 0x5555);
     let calls = if prop == "C19" {
         layout_script(&mut r)
+    } else if r.chance(0.0006) {
+        big_snapshot_script(&mut r)
     } else if r.chance(0.55) {
         book_script(&mut r)
     } else {
